@@ -80,3 +80,41 @@ def shared_state_writes(it, shared=None):
         if hit is not None and hit[1] is obj:
             out.append({"effect": kind, "object": hit[0], "detail": str(detail)[:80]})
     return out
+
+
+def memoised_callables(package="ceos_alos2"):
+    """functools caches (lru_cache / cache wrappers) anywhere in the package: a memoised reader function is hidden state —
+    its result depends on what was computed before, not on its inputs alone"""
+    import functools
+    import sys
+
+    out = []
+    for name, mod in list(sys.modules.items()):
+        if mod is None or not (name == package or name.startswith(package + ".")) or ".tests" in name:
+            continue
+        for k, v in list(vars(mod).items()):
+            if isinstance(v, functools._lru_cache_wrapper):
+                out.append(f"{name}.{k}")
+            if isinstance(v, type) and (getattr(v, "__module__", "") or "").startswith(package):
+                for kk, vv in list(vars(v).items()):
+                    if isinstance(vv, functools._lru_cache_wrapper) or isinstance(vv, functools.cached_property):
+                        out.append(f"{name}.{k}.{kk}")
+    return sorted(set(out))
+
+
+def purity_obligation(ses, function="ceos_alos2"):
+    import importlib
+    import pkgutil
+
+    import ceos_alos2
+
+    for m in pkgutil.walk_packages(ceos_alos2.__path__, "ceos_alos2."):
+        if ".tests" in m.name or m.name.endswith("__main__"):
+            continue
+        try:
+            importlib.import_module(m.name)
+        except Exception:  # noqa: BLE001
+            pass
+    memo = memoised_callables()
+    ses.decided(f"{ses.prop}/frame/no-memoised-function-in-the-package", not memo, function=function, kind="frame", backend="syntactic",
+                detail={"memoised": memo})
